@@ -55,14 +55,25 @@ class DDMSpec(_Base):
         level = self.p + self.s
         if self.pmin == math.inf or ch.le(level, self.pmin + self.smin, TOL):
             self.pmin, self.smin = self.p, self.s
-        if ch.ge(level, self.pmin + self.ds * self.s, TOL):
+        if self._ge(level, self.ds, ch):
             self.state = "drift"
-        elif ch.ge(level, self.pmin + self.ws * self.s, TOL):
+        elif self._ge(level, self.ws, ch):
             self.state = "warning"
         else:
             self.state = None
         self._recs_first_warning()
         return self.out()
+
+
+    def _ge(self, level, k, ch):
+        """documented test ``p_i + s_i >= p_min + k * s``.  Two kinds of tie are exact in every floating-point evaluation and
+        are therefore decided as documented (>=) instead of being left open: the deviation is exactly 0 (a prefix of only
+        correct or only wrong predictions: every quantity is 0 or 1), or the current point has just become the minimum and
+        k == 1 (both sides are then the same expression p + s)."""
+        rhs = self.pmin + k * self.s
+        if self.pmin == self.p and (self.s == 0.0 or k == 1):
+            return True
+        return ch.ge(level, rhs, TOL)
 
 
 class EDDMSpec(_Base):
